@@ -95,6 +95,12 @@ func buildTable(d *tbl.Driver, r *gen.Rand) (buckets []int) {
 			d.QuestionablePing(n, "ok")
 		}
 	}
+	// Entries (including ones that have just failed their ping) query us again.
+	for _, n := range d.N.S.VerifTable().Nodes {
+		if r.Intn(4) == 0 {
+			d.InboundQuery(tbl.Contact{UDP: &net.UDPAddr{IP: n.IP, Port: n.Port}, ID: n.Id}, r.Intn(6) == 0)
+		}
+	}
 	return
 }
 
